@@ -1,6 +1,6 @@
 """C08  quilt metadata is exact (DESIGN §4 C08)."""
 from .. import cfg, dataflow as df, guards, pathconst, patterns as pt
-from ..common import A, calls_named, dry_run_guards
+from ..common import A, calls_named, dry_run_guards, arg_by_name
 from ..facts import callee_of
 from . import c04
 
@@ -284,7 +284,7 @@ def run(ck):
     if ck.require(len(g) >= 1, "C08-R4", "the backup loop tests is_rename", "no branch on is_rename()", rb.where()):
         second = []
         for bb, t, c in sb:
-            e = df.operand_expr(rb, t["args"][2])
+            e = df.operand_expr(rb, arg_by_name(prog, t, "filename", 2))
             if df.mentions(e, lambda x: df.is_call(x, "::new_filename")):
                 second.append(bb)
         for gg in g:
@@ -301,8 +301,8 @@ def run(ck):
                        ok_detail="every is_rename path crosses save_backup_file(new_filename)")
     # first backup: the state returned by rollback for this very PatchStatus, named by target_filename
     for bb, t, c in sb:
-        name = df.operand_expr(rb, t["args"][2])
-        filee = df.operand_expr(rb, t["args"][3])
+        name = df.operand_expr(rb, arg_by_name(prog, t, "filename", 2))
+        filee = df.operand_expr(rb, arg_by_name(prog, t, "original_file", 3))
         if df.mentions(name, lambda x: df.is_call(x, "::new_filename")):
             continue
         good_name = isinstance(name, tuple) and name[0] == "field" and name[2] == "target_filename"
@@ -315,12 +315,12 @@ def run(ck):
         ck.require(rolled and same, "C08-R5", "backup content is the rolled-back state of that file patch",
                    "save_backup_file gets %s for the patch status %s" % (df.show(filee, 120), df.show(name, 60)), rb.where(t),
                    ok_detail="file = ModifiedFiles::rollback(applied_patch)")
-        pn = df.operand_expr(rb, t["args"][1])
+        pn = df.operand_expr(rb, arg_by_name(prog, t, "patch_filename", 1))
         ck.require(isinstance(pn, tuple) and pn[0] == "field" and pn[2] == "patch_filename" and (not good_name or pn[1] == name[1]), "C08-R5",
                    "backup filed under the patch that is being undone", "backup directory is %s" % df.show(pn, 80), rb.where(t))
     # every state obtained by a rollback in the backup loop is written: a conditional skip would keep a later state of a file
     # that a patch touches through several entries (the last write in reverse order is the one before the first entry)
-    named = [bb for bb, t, c in sb if not df.mentions(df.operand_expr(rb, t["args"][2]), lambda x: df.is_call(x, "::new_filename"))]
+    named = [bb for bb, t, c in sb if not df.mentions(df.operand_expr(rb, arg_by_name(prog, t, "filename", 2)), lambda x: df.is_call(x, "::new_filename"))]
     err_blocks = {b for b, t2 in rb.calls() if t2["dest"]["l"] == 0 and (callee_of(t2).get("path") or "").endswith("from_residual")}
     for bb, t, c in rcalls:
         loop = cfg.innermost_loop_of(rb, bb)
